@@ -268,6 +268,52 @@ TEMPLATES = [(tps, where, nested)
 TEMPLATES += [(tps, where, 'ref') for tps in [('xs:integer',), ('xs:decimal', 'xs:string')] for where in ('attr', 'elem')]
 
 
+# ------------------------------------------------------------------------------------ selectors and substitution groups
+
+SUB_XSD = ('<xs:schema xmlns:xs="http://www.w3.org/2001/XMLSchema"><xs:complexType name="T"><xs:attribute name="k" type="xs:int"/></xs:complexType>'
+           '<xs:element name="head" type="T"/><xs:element name="mem" type="T" substitutionGroup="head"/>'
+           '<xs:element name="mem2" type="T" substitutionGroup="mem"/>'
+           '<xs:element name="root"><xs:complexType><xs:sequence><xs:element ref="head" minOccurs="0" maxOccurs="unbounded"/>'
+           '<xs:element name="loc" type="T" minOccurs="0" maxOccurs="unbounded"/></xs:sequence></xs:complexType>'
+           '<xs:%s name="u"><xs:selector xpath="%s"/><xs:field xpath="@k"/></xs:%s></xs:element></xs:schema>')
+# selector -> the element NAMES it selects among the children of the root (XPath name tests see the instance name, not
+# the declaration: a member that substitutes the head is selected by '*', not by 'head')
+SUB_SELECTORS = {'*': None, './*': None, 'head': {'head'}, 'mem': {'mem'}, 'head|mem': {'head', 'mem'},
+                 'head|mem|mem2': {'head', 'mem', 'mem2'}, 'loc|*': None, 'mem2|loc': {'mem2', 'loc'}}
+
+
+def judge_subst(ver, st):
+    """unique / key whose selector meets members of a substitution group standing in for the head."""
+    out = []
+    cls = xmlschema.XMLSchema11 if ver == '11' else xmlschema.XMLSchema10
+    for kind in ('unique', 'key'):
+        for sel, names in SUB_SELECTORS.items():
+            s = cls(SUB_XSD % (kind, sel, kind))
+            for n in (1, 2, 3):
+                for rows in itertools.product([(e, k) for e in ('head', 'mem', 'mem2', 'loc') for k in ('1', '2', None)], repeat=n):
+                    order = [e for e, _ in rows]
+                    if 'loc' in order and any(e != 'loc' for e in order[order.index('loc'):]):
+                        continue        # content model: heads (or members) first, then loc
+                    doc = '<root>%s</root>' % ''.join('<%s%s/>' % (e, ' k="%s"' % k if k else '') for e, k in rows)
+                    picked = [k for e, k in rows if names is None or e in names]
+                    vals = [k for k in picked if k is not None]
+                    exp = len(vals) == len(set(vals)) and (kind == 'unique' or None not in picked)
+                    st.case()
+                    if len(picked) >= 2 and any(e != 'head' for e, _ in rows):
+                        st.nt((ver, kind, sel, doc))
+                    got = s.is_valid(doc)
+                    if got != exp:
+                        out.append({'kind': 'idc_selector_substitution', 'input': {'ver': ver, 'constraint': kind, 'selector': sel, 'doc': doc},
+                                    'expected': 'valid' if exp else 'invalid', 'observed': 'valid' if got else 'invalid',
+                                    'classes': [], 'key': 'subst|%s|%s|%s|%s' % (ver, kind, sel, doc)})
+                        break
+                else:
+                    continue
+                break
+    st.sample({'ver': ver, 'selectors over substitution members': sorted(SUB_SELECTORS), 'doc': '<root><head k="1"/><mem k="1"/><loc k="2"/></root>'})
+    return out
+
+
 def shards(tier, seed):
     out = []
     for ver in ('10', '11'):
@@ -276,13 +322,16 @@ def shards(tier, seed):
                 continue
             out.append(('tpl', ver, i, tier, seed))
         out.append(('ids', ver))
+        out.append(('subst', ver))
     return out
 
 
 def run_shard(desc):
     st = core.Stats()
     recs = []
-    if desc[0] == 'ids':
+    if desc[0] == 'subst':
+        recs = judge_subst(desc[1], st)
+    elif desc[0] == 'ids':
         recs = []
         for carrier in ID_CARRIERS:
             recs += judge_ids(desc[1], st, carrier)
@@ -325,6 +374,11 @@ def run_shard(desc):
 def replay(record):
     st = core.Stats()
     inp = record['input']
+    if record['kind'] == 'idc_selector_substitution':
+        s = (xmlschema.XMLSchema11 if inp['ver'] == '11' else xmlschema.XMLSchema10)(
+            SUB_XSD % (inp['constraint'], inp['selector'], inp['constraint']))
+        got = s.is_valid(inp['doc'])
+        return [dict(record, observed='valid' if got else 'invalid')] if (got != (record['expected'] == 'valid')) else []
     if record['kind'] == 'id_idref':
         s = (xmlschema.XMLSchema11 if inp['ver'] == '11' else xmlschema.XMLSchema10)(id_xsd(inp.get('carrier', 'empty')))
         got = s.is_valid(inp['doc'])
